@@ -32,6 +32,10 @@ fn explicit_envs() -> Vec<(&'static str, AbsEnv)> {
         ("PATH append+delim in build", mk(&[(Sc::Build, Beh::Append, "PATH", "/appended"), (Sc::Build, Beh::Delim, "PATH", ":")])),
         ("LD_LIBRARY_PATH default in launch", mk(&[(Sc::Launch, Beh::Default, "LD_LIBRARY_PATH", "/dflt")])),
         ("CPATH prepend in build", mk(&[(Sc::Build, Beh::Prepend, "CPATH", "/pre")])),
+        // a non-empty env.launch/<process>/ directory: the implicit entries still apply for build and
+        // launch only, and a read->write cycle must not add anything to the process directory
+        ("X override in process p", mk(&[(Sc::Process("p".into()), Beh::Override, "X", "1")])),
+        ("PATH append+delim in process p, LD_LIBRARY_PATH default in launch", mk(&[(Sc::Process("p".into()), Beh::Append, "PATH", "/proc"), (Sc::Process("p".into()), Beh::Delim, "PATH", ":"), (Sc::Launch, Beh::Default, "LD_LIBRARY_PATH", "/dflt")])),
     ]
 }
 
@@ -229,8 +233,8 @@ pub fn run(args: &Args) {
     rep.cov("fixpoint_cycles_run", fix);
     rep.cov("distinct_nontrivial", outcomes.len() as u64);
     rep.cov("distinct_outcomes", outcomes.len() as u64);
-    rep.cov("rule", "all 6^4 assignments of {absent, dir, file, symlink->dir, symlink->file, dangling symlink} to bin/lib/include/pkgconfig x 5 explicit envs on the same variables x 3 start envs (unset, set, empty) x 4 query scopes, each read by the real read_from_layer_dir and compared with the reference; per assignment x explicit env, read->write cycles by 4 routes (LayerEnv, cached_layer keep+read_env/write_env, handle_layer Keep, handle_layer Update with the default impl) must leave the env directories unchanged. distinct_nontrivial = distinct (scope, resulting environment) outcomes with the scratch path normalised");
-    rep.cov("bound", json!({"assignments": assigns.len(), "explicit_envs": 5, "start_envs": 3, "scopes": 4, "cycles": cycles, "routes": 4}));
+    rep.cov("rule", "all 6^4 assignments of {absent, dir, file, symlink->dir, symlink->file, dangling symlink} to bin/lib/include/pkgconfig x 7 explicit envs (two with a non-empty per-process directory) on the same variables x 3 start envs (unset, set, empty) x 4 query scopes, each read by the real read_from_layer_dir and compared with the reference; per assignment x explicit env, read->write cycles by 4 routes (LayerEnv, cached_layer keep+read_env/write_env, handle_layer Keep, handle_layer Update with the default impl) must leave the env directories unchanged. distinct_nontrivial = distinct (scope, resulting environment) outcomes with the scratch path normalised");
+    rep.cov("bound", json!({"assignments": assigns.len(), "explicit_envs": 7, "start_envs": 3, "scopes": 4, "cycles": cycles, "routes": 4}));
     rep.cov("exhaustive", true);
     rep.sample(json!({"assignment": {"bin": "link->dir", "lib": "file", "include": "dir", "pkgconfig": "dangling"}, "explicit": "PATH append+delim in build", "scope": "Build", "start": "all five variables set"}));
     rep.sample(json!({"fixpoint": "bin=dir lib=dir include=absent pkgconfig=absent; handle_layer Keep x3; env dirs must stay as written"}));
